@@ -43,6 +43,25 @@ prop("C11",
   classes=["duplicates", "interleaved-chromosomes", "unsorted-coordinates", "empty-set", "query-hits-duplicates"],
   extra_trusted=["std HashMap and Vec::sort contracts"])
 
+prop("C13",
+  level_text="Proof (Lean 4), no bound on coordinates: overlap a b is Some exactly when the records share a chromosome and a position, the result is (chrom, max start, min end) and contains exactly the positions in both (C13_overlap_some_iff, C13_overlap_positions); overlap and n_overlap are symmetric; n_overlap is the number of shared positions, 0 when disjoint or adjacent (C13_nOverlap_card, C13_nOverlap_adjacent); len = end ∸ start = number of positions (C13_len, C13_len_card); compare is a total order (refl, eq iff equal fields, swap, trans) equal to the lexicographic order by byte-lexicographic chromosome name, start, end (C13_compare_lex, C13_cmpBytes_lt_iff). The derived Ord of GenomicRange and to_genomic_range are tied to compare by the correspondence check.",
+  level_note="Trusted: " + KERNEL + "; " + MODEL + "; " + HARN + "; Rust str::cmp is byte-lexicographic (modelled by cmpBytes, proved equal to the lexicographic order on byte lists); " + NAT + ".",
+  explanation="Theorems in lean/BedVerif/Props/C13.lean; lemmas in Lemmas/RecBasic.lean. Correspondence: all ordered pairs of 2-3 records of every record type (self) against three `other` types; observables len, to_genomic_range, overlap, n_overlap, compare, Ord for GenomicRange; the driver also checks the total-order laws on the observed compare table.",
+  classes=["adjacent", "one-base-overlap", "nested", "identical", "zero-length", "end-before-start", "different-chromosome", "prefix-chromosome-names", "u64max"])
+
+prop("C14",
+  level_text="Proof (Lean 4) with the u64 arithmetic modelled exactly (saturating_add; bounds start <= end <= u64::MAX, 1 <= bin <= u64::MAX, nothing else): split_by_len returns ceil(len/bin) pieces on the record's chromosome, the first starting at start, consecutive, all but the last exactly bin long, the last non-empty and ending at end (C14_split_tiles); hence every position of the record lies in exactly one piece and no piece leaves the record (C14_partition); rsplit_by_len returns the mirror tiling anchored at the end (C14_rsplit_tiles); an empty record yields nothing (C14_split_empty). The Boolean checker the driver applies to the implementation's output is proved sound for the specification (C14_tilesB_sound).",
+  level_note="Trusted: " + KERNEL + "; " + MODEL + "; " + HARN + "; std Range::step_by contract (modelled by List.range'); usize = u64 (64-bit target).",
+  explanation="Theorems in lean/BedVerif/Props/C14.lean; lemmas in Lemmas/RecBasic.lean. Correspondence: split_by_len, rsplit_by_len, BinnedCoverage::regions, SparseBinnedCoverage::regions on a grid of (record, bin) incl. bins and coordinates at u64::MAX.",
+  classes=["bin-1", "bin-divides", "bin-not-divides", "bin-eq-len", "bin-gt-len", "bin-u64max", "length-1", "zero-length", "start-0", "near-u64max"],
+  extra_trusted=["std Range::step_by contract"])
+
+prop("C07",
+  level_text="Proof (Lean 4): for every input sorted by (chrom, start, end) the grouping loop of MergeBed never takes its panic branch and returns groups that flatten to the input (every record in exactly one group, in order), are non-empty, on one chromosome, chained (each further record starts at or before the running maximum end) and maximal (no record of a later group overlaps or abuts a record of an earlier one on the same chromosome) (C07_groups, C07_groups_separated); merge_sorted_bed emits (chrom, first start = min start, max end) per group (C07_merged_ranges) and its output is sorted, pairwise disjoint and non-adjacent within a chromosome and covers exactly the positions covered by the input (C07_merged). For arbitrary (unsorted) input, whenever the loop returns, no record is dropped (C07_groups_flatten_any).",
+  level_note="Trusted: " + KERNEL + "; " + MODEL + "; " + HARN + "; " + NAT + "; the closure passed to merge_sorted_bed_with is modelled as receiving the group list.",
+  explanation="Theorems in lean/BedVerif/Props/C07.lean; loop invariant in Lemmas/MergeBed.lean. Correspondence: the groups handed to the closure of merge_sorted_bed_with and the output of merge_sorted_bed on sorted sequences; spec evaluated in Lean on the implementation's groups and ranges.",
+  classes=["chrom-change-overlapping-coords", "book-ended", "gap-of-one", "nested-smaller-end", "duplicates", "zero-length", "empty", "single"])
+
 if __name__ == "__main__":
     json.dump(P, open(os.path.join(V, "props_meta.json"), "w"), indent=1, ensure_ascii=False)
     subprocess.check_call([sys.executable, os.path.join(V, "tools", "gen_manifest.py")])
